@@ -1024,9 +1024,11 @@ def instruction(ctx):
 
         operands.append(first_operand)
 
-        ctx_before_comma = ctx.save()
         while comma(ctx, maybe=True):
             ctx_after_comma = ctx.save()
+            # The comma itself, not the blanks or comments in front of it
+            ctx_before_comma = ctx.save()
+            ctx_before_comma.pos -= 1
             ctx.skip_whitespace()
             oper = parse_insn_operand(ctx, insn_name, len(operands), report=(
                 reports.critical,
@@ -1036,7 +1038,6 @@ def instruction(ctx):
                 (ctx, ctx, "This definitely does not look like an operand")
             ))
             operands.append(oper)
-            ctx_before_comma = ctx.save()
 
         ctx_opening_bracket = ctx.save()
         if opening_bracket(ctx, maybe=True):
